@@ -29,7 +29,7 @@ def _judge(a, out):
         if act == "disc" or (act.startswith("with") and act != "withref"):     # a refused entry leaves the client as it was
             connected = False
         ok = (flag == ("1" if connected else "0")) and (opened == ("1" if connected else "0"))
-        if act in ("cref", "crefs", "withref") and res != "raise_OSError":
+        if act in ("cref", "crefs", "withref", "ccancel") and res != "raise_OSError":
             ok = False
         if act.startswith("withx") and res != "raise_BodyError":
             ok = False
@@ -58,7 +58,7 @@ def gen(rng):
             a = rng.choice(["opeof", "disc", "opeof"] if dead else ["op", "opx", "disc", "disc", "op", "opeof"])
             dead = dead or a == "opeof"
         else:
-            a = rng.choice(["cok", "cok", "cref", "crefs", "disc", "with", "withx", "withref", "withop"])
+            a = rng.choice(["cok", "cok", "cref", "crefs", "disc", "with", "withx", "withref", "withop", "ccancel"])
             a = _body(rng) if a == "withx" else a
         if a == "cok":
             connected, dead = True, False
@@ -148,10 +148,14 @@ def with_another_client(rng, a):
             acts.append(o)
         acts.append(x)
     acts.append("o:cok" if not oc else "o:disc")
+    if rng.random() < 0.4:
+        acts.insert(0, "o:copy")        # the other client object is a copy.copy() of this one, made before anything was connected
     return dict(a, acts=acts)
 
 
 FIXED += [{"api": t, "acts": acts} for t in ("type1", "type2") for acts in (
+    ["ccancel", "cok", "op", "disc", "ccancel", "ccancel", "with", "cok", "disc"],
+    ["o:copy", "cok", "o:cok", "op", "o:disc", "op", "disc", "o:cok", "o:op", "cok", "disc", "o:disc"],
     ["cok", "o:cok", "op", "o:op", "op", "o:disc", "op", "disc", "o:cok", "cok", "o:disc", "op", "disc"],
     ["o:cok", "cok", "op", "disc", "o:op", "with", "withop", "o:disc", "cref", "o:cok", "withx", "o:disc"])]
 
